@@ -286,6 +286,24 @@ class Deployment:
         self._keep = getattr(self, "_keep", []) + [rng]
         return self.make_joker(pool, rng)
 
+    @staticmethod
+    def typed_kw(op):
+        """Call kwargs with the argument TYPES the op asks for: the same value as a numpy integer, np.True_ or 1 --
+        what user code produces all the time (np.sum(mask), a numpy comparison) and must behave like int / True."""
+        kw = dict(op.get("kw", {}))
+        for k, t in (op.get("kw_types") or {}).items():
+            if k not in kw or kw[k] is None:
+                continue
+            if t == "i8":
+                kw[k] = np.int64(kw[k])
+            elif t == "i4":
+                kw[k] = np.int32(kw[k])
+            elif t == "np.bool" and isinstance(kw[k], bool):
+                kw[k] = np.bool_(kw[k])
+            elif t == "int01" and isinstance(kw[k], bool):
+                kw[k] = int(kw[k])
+        return kw
+
     def run_op(self, op, joker=None):
         if op["op"].startswith("helper_"):
             return self.run_helper_op(op)
@@ -305,10 +323,10 @@ class Deployment:
                     w.datasets[op.get("data", 0)], self.source(op), n_batches=op.get("n_batches"), in_memory=op.get("in_memory", False)
                 )
             elif kind == "rejection":
-                out = joker.rejection_sample(w.datasets[op.get("data", 0)], self.source(op), in_memory=op.get("in_memory", False), **op.get("kw", {}))
+                out = joker.rejection_sample(w.datasets[op.get("data", 0)], self.source(op), in_memory=op.get("in_memory", False), **self.typed_kw(op))
             elif kind == "iterative":
                 out = joker.iterative_rejection_sample(
-                    w.datasets[op.get("data", 0)], self.source(op), in_memory=op.get("in_memory", False), **op.get("kw", {})
+                    w.datasets[op.get("data", 0)], self.source(op), in_memory=op.get("in_memory", False), **self.typed_kw(op)
                 )
             else:
                 raise ValueError("unknown op %r" % kind)
@@ -345,6 +363,8 @@ class Deployment:
                 arr = None
                 if op.get("with_arr"):
                     arr = np.arange(1000, 1000 + op["start_idx"] + op["n_tasks"]) * 3
+                    if op.get("arr_dtype"):
+                        arr = arr.astype(np.dtype(op["arr_dtype"]))  # e.g. big-endian indices read from a FITS table
                 args = op.get("args")
                 res_tasks = batch_tasks(op["n_tasks"], op["n_batches"], arr=arr, args=args, start_idx=op.get("start_idx", 0))
                 rec["direct"] = {"arr": arr, "tasks": [(t[0] if isinstance(t[0], tuple) else np.array(t[0]), t[1], list(t[2:])) for t in res_tasks]}
